@@ -258,18 +258,18 @@ Proof.
     destruct (mstep iso m (MLoadAll (pick pool ixs))) as [m' r].
     destruct (rstep iso f (MLoadAll (pick pool ixs))) as [f' r'].
     cbn [fst snd] in S. destruct S as [I' ->].
-    rewrite (dup_sensitive_eq m f _ I), (IH _ _ I'). reflexivity.
+    rewrite (IH _ _ I'). reflexivity.
   - pose proof (step_inv iso m f (MLoadRes res (pick pool ixs)) I) as S.
     destruct (mstep iso m (MLoadRes res (pick pool ixs))) as [m' r].
     destruct (rstep iso f (MLoadRes res (pick pool ixs))) as [f' r'].
     cbn [fst snd] in S. destruct S as [I' ->].
-    rewrite (dup_sensitive_eq m f _ I), (IH _ _ I'). reflexivity.
+    rewrite (IH _ _ I'). reflexivity.
   - destruct (pick pool [ix]) as [|r0 [|? ?]]; try reflexivity.
     pose proof (step_inv iso m f (MAppend r0) I) as S.
     destruct (mstep iso m (MAppend r0)) as [m' r].
     destruct (rstep iso f (MAppend r0)) as [f' r'].
     cbn [fst snd] in S. destruct S as [I' ->].
-    rewrite (dup_sensitive_eq m f _ I), (IH _ _ I'). reflexivity.
+    rewrite (IH _ _ I'). reflexivity.
   - pose proof (step_inv iso m f MClear I) as S.
     destruct (mstep iso m MClear) as [m' r].
     destruct (rstep iso f MClear) as [f' r'].
